@@ -7,7 +7,6 @@ use std::path::{Path, PathBuf};
 use std::process::{Command, Stdio};
 use std::sync::atomic::{AtomicU64, Ordering};
 use std::time::Duration;
-use wait_timeout::ChildExt;
 
 #[derive(Clone, Copy, Debug, PartialEq, Eq, Hash, PartialOrd, Ord, serde::Serialize, serde::Deserialize)]
 pub enum Callback {
@@ -78,7 +77,7 @@ pub struct RunOpts {
 
 impl RunOpts {
     pub fn new(coin: Coin, callback: Callback) -> RunOpts {
-        RunOpts { coin, start: None, end: None, verify: false, callback, threads: None, fsize: None, nofile: None, pin: false, inject: None, trace: None, timeout_s: 300, verbose: 0 }
+        RunOpts { coin, start: None, end: None, verify: false, callback, threads: None, fsize: None, nofile: None, pin: false, inject: None, trace: None, timeout_s: std::env::var("VP_TIMEOUT").ok().and_then(|v| v.parse().ok()).unwrap_or(90), verbose: 0 }
     }
 }
 
@@ -126,6 +125,7 @@ pub fn tool_bin() -> PathBuf {
 }
 
 static COUNTER: AtomicU64 = AtomicU64::new(0);
+pub static TIMED_OUT: AtomicU64 = AtomicU64::new(0);
 
 /// Scratch directory, removed on drop. Lives on tmpfs when available.
 pub struct Scratch {
@@ -161,11 +161,18 @@ impl Scratch {
 
 impl Drop for Scratch {
     fn drop(&mut self) {
+        if std::env::var("VP_KEEP").is_ok() || (std::env::var("VP_KEEP_ON_TIMEOUT").is_ok() && TIMED_OUT.load(Ordering::SeqCst) > 0) {
+            eprintln!("kept {}", self.path.display());
+            return;
+        }
         let _ = std::fs::remove_dir_all(&self.path);
     }
 }
 
 pub fn cleanup_root() {
+    if std::env::var("VP_KEEP").is_ok() || (std::env::var("VP_KEEP_ON_TIMEOUT").is_ok() && TIMED_OUT.load(Ordering::SeqCst) > 0) {
+        return;
+    }
     let _ = std::fs::remove_dir_all(scratch_root());
 }
 
@@ -182,8 +189,38 @@ pub fn read_dir_files(dir: &Path) -> BTreeMap<String, Vec<u8>> {
     m
 }
 
+/// number of runs that hit the watchdog and were repeated (see DESIGN section 9: the index
+/// iterator of the rusty-leveldb dependency contains a zero-drift random walk that very rarely
+/// spins for minutes, independent of the input)
+pub static RETRIED_TIMEOUTS: AtomicU64 = AtomicU64::new(0);
+
 /// Runs the tool. `dump` is the dump folder for file-producing callbacks (must exist).
+/// A run that hits the watchdog is repeated (up to 3 attempts, dump folder restored to its
+/// previous content first); only three time-outs in a row are reported as `timed_out`.
 pub fn run_tool(datadir: &Path, dump: &Path, o: &RunOpts) -> Result<RunOut, String> {
+    let before = if o.callback.has_dump() { read_dir_files(dump) } else { BTreeMap::new() };
+    let mut last = None;
+    for attempt in 0..3 {
+        if attempt > 0 {
+            RETRIED_TIMEOUTS.fetch_add(1, Ordering::SeqCst);
+            if o.callback.has_dump() {
+                let _ = std::fs::remove_dir_all(dump);
+                std::fs::create_dir_all(dump).map_err(|e| e.to_string())?;
+                for (n, c) in &before {
+                    std::fs::write(dump.join(n), c).map_err(|e| e.to_string())?;
+                }
+            }
+        }
+        let r = run_tool_once(datadir, dump, o)?;
+        if !r.timed_out || o.inject.is_some() {
+            return Ok(r);
+        }
+        last = Some(r);
+    }
+    Ok(last.unwrap())
+}
+
+fn run_tool_once(datadir: &Path, dump: &Path, o: &RunOpts) -> Result<RunOut, String> {
     let bin = tool_bin();
     let mut args: Vec<String> = vec!["-d".into(), datadir.display().to_string(), "-c".into(), o.coin.cli().into()];
     if let Some(s) = o.start {
@@ -266,10 +303,31 @@ pub fn run_tool(datadir: &Path, dump: &Path, o: &RunOpts) -> Result<RunOut, Stri
         });
     }
     let mut child = cmd.spawn().map_err(|e| format!("spawn {}: {}", bin.display(), e))?;
-    let status = child.wait_timeout(Duration::from_secs(o.timeout_s)).map_err(|e| e.to_string())?;
+    // plain polling: no SIGCHLD machinery that could miss a wake-up when 16 shards wait at once
+    let deadline = std::time::Instant::now() + Duration::from_secs(o.timeout_s);
+    let mut nap = Duration::from_micros(500);
+    let status = loop {
+        match child.try_wait().map_err(|e| e.to_string())? {
+            Some(s) => break Some(s),
+            None => {
+                if std::time::Instant::now() >= deadline {
+                    break None;
+                }
+                std::thread::sleep(nap);
+                if nap < Duration::from_millis(4) {
+                    nap *= 2;
+                }
+            }
+        }
+    };
     let (code, signal, timed_out) = match status {
         Some(s) => (s.code(), s.signal(), false),
         None => {
+            TIMED_OUT.fetch_add(1, Ordering::SeqCst);
+            if std::env::var("VP_KEEP_ON_TIMEOUT").is_ok() {
+                let bt = Command::new("gdb").args(["-batch", "-ex", "thread apply all bt", "-p", &child.id().to_string()]).output().map(|o| String::from_utf8_lossy(&o.stdout).into_owned()).unwrap_or_default();
+                eprintln!("TIMEOUT pid {} args {:?} syscall: {} wchan: {}\n{}", child.id(), args, std::fs::read_to_string(format!("/proc/{}/syscall", child.id())).unwrap_or_default(), std::fs::read_to_string(format!("/proc/{}/wchan", child.id())).unwrap_or_default(), bt);
+            }
             let _ = child.kill();
             let _ = child.wait();
             (None, None, true)
